@@ -165,26 +165,45 @@ for _f in sorted(_glob.glob(_os.path.join(_os.path.dirname(_os.path.abspath(__fi
     _PLUG[_os.path.basename(_f)[5:-3]] = _m
 
 
-# ---- C07 also runs the "one huge update call" job of C17 for Grøstl (a message is a message, however
-#      it is fed): one > 2^29-byte slice in a single `update` vs the same bytes in 1 MiB calls, exact counter
-def _c07_extra(pid, tier, seed):
-    import cclib
-    m = _PLUG["C17"]
-    out = {"coverage": {"single_update_jobs": 0}, "violations": [], "evaluations": 0}
-    for cfg in (["std-release", "std-debug"] if tier == "thorough" else ["std-release"]):
-        ok, binp, hlog = cclib.harness_build(cfg)
-        if not ok:
-            continue
-        for (bits, b) in (m.GROESTL if tier == "thorough" else m.GROESTL[1:2]):
-            N = 2 ** 29 + 5
-            prefix = (seed * 13 + bits) % b
-            good, what, detail, ev = m._job_single_call("groestl", cfg, binp, str(bits), b, prefix, N, seed % 1000, str((prefix + N) // b))
-            out["coverage"]["single_update_jobs"] += 1
-            out["evaluations"] += ev
-            if not good:
-                rp = cclib.write_replay(pid, seed, "single-update-groestl%d-%s" % (bits, cfg), detail + "\n")
-                out["violations"].append((what, rp, False))
-    return out
+# ---- C04/C05/C06/C07 also run the "one huge update call" job of C17 for their family (a message is a
+#      message, however it is fed): one slice of more than 2^29 bytes in a single `update` vs the same bytes
+#      in 1 MiB calls, exact counter.  The slice is 2^29 + 4096 + 5 bytes so that the run of whole blocks
+#      handed to the compression loop exceeds 2^29 bytes whatever the buffered prefix is (a seeded change
+#      whose bulk byte count overflowed only above 2^29 was missed with 2^29 + 5).
+def _single_extra(family):
+    def extra(pid, tier, seed):
+        import cclib
+        m = _PLUG["C17"]
+        out = {"coverage": {"single_update_jobs": 0}, "violations": [], "evaluations": 0}
+        if family == "blake":
+            variants = [(str(bits), b, w) for (bits, w, b) in m.BLAKE]
+        elif family == "jh":
+            variants = [(str(n), 64, 0) for n in m.JH]
+        elif family == "skein":
+            variants = [(v, nb, 0) for (v, nb) in m.SKEIN[:3]]
+        else:
+            variants = [(str(bits), b, 0) for (bits, b) in m.GROESTL]
+        if tier != "thorough":
+            variants = [variants[(seed + 1) % len(variants)], variants[(seed + 3) % len(variants)]] if family == "blake" else variants[1:2]
+        for cfg in (["std-release", "std-debug"] if tier == "thorough" else ["std-release"]):
+            ok, binp, hlog = cclib.harness_build(cfg)
+            if not ok:
+                continue
+            for (arg, b, w) in variants:
+                N = m.SINGLE_N
+                prefix = (seed * 13 + len(arg) * 7 + int(arg.split("-")[0])) % b
+                good, what, detail, ev = m._job_single_call(family, cfg, binp, arg, b, prefix, N, seed % 1000,
+                                                            m.single_expect(family, b, w, prefix + N))
+                out["coverage"]["single_update_jobs"] += 1
+                out["evaluations"] += ev
+                if not good:
+                    rp = cclib.write_replay(pid, seed, "single-update-%s%s-%s" % (family, arg, cfg), detail + "\n")
+                    out["violations"].append((what, rp, False))
+        return out
+    return extra
 
 
-PROPS["C07"]["extra"] = _c07_extra
+PROPS["C04"]["extra"] = _single_extra("blake")
+PROPS["C05"]["extra"] = _single_extra("skein")
+PROPS["C06"]["extra"] = _single_extra("jh")
+PROPS["C07"]["extra"] = _single_extra("groestl")
